@@ -279,6 +279,10 @@ fn targets(seed: u64, n: usize) -> Vec<(Plan, Target)> {
         if !shape_ok {
             continue;
         }
+        // (kilobyte-long tokens only make every trace longer)
+        if p.spec.token.as_ref().map(|t| t.len() > 80).unwrap_or(false) {
+            continue;
+        }
         // requests with and without a session token alternate (temporary credentials take other paths around the lookup)
         if (out.len() % 4 == 0) != p.spec.token.is_some() && out.len() % 2 == 0 {
             continue;
